@@ -1,5 +1,6 @@
 import TracklibVerif.Lemmas.SplitSeg
 import TracklibVerif.Lemmas.SplitUid
+import TracklibVerif.Lemmas.SplitVal
 /-! # C11 — splitting on a marker partitions the track; markers reflect the thresholds
 
 Property theorems only (helper lemmas are in `Lemmas/Split*.lean`). The models are in `Model/Split.lean`:
@@ -7,6 +8,9 @@ Property theorems only (helper lemmas are in `Lemmas/Split*.lean`). The models a
 (observation, marker = 1?) pairs; `splitL` / `splitLimit` the same call with a `limit`; `splitIdx` / `extract` the
 index-list form and `Track.extract`; `splitColl` `TrackCollection.split_segmentation`; `marker`/`markers` mirror the
 loops of `segmentation()` on exact scalars with NaN = `none`, `segTrack` the whole call on a feature table.
+`Model/SplitVal.lean`: the same loops with `isnan(v)` and `v <= threshold` as the Python operator calls they are
+(`foldCmpG` … `segTrackG`), and the values a track hands over: numbers or `ObsTime` objects (`Val`; the built-in
+feature `timestamp`), compared with the `ObsTime` operators of `Model/ObsTime.lean`.
 All statements hold for every track length, every marker vector, every number of tested features; the
 observations are abstract, so nothing depends on coordinates (NaN, infinite, repeated), timestamps or other features. -/
 namespace TV.C11
@@ -364,6 +368,261 @@ omit [LE α] [DecidableLE α] [OfNat α 0] [OfNat α 1] in
 theorem listify_one {γ : Type} (a : γ) : (Arg.one a).listify = (Arg.many [a]).listify := rfl
 end track
 
+/-! ## tested values that are not all numbers: `isnan` and `<=` as operator calls, `ObsTime` values -/
+section typed
+variable {α : Type}
+
+/-- T9 (AND mode, any kind of value): let `isnan` and `le?` be what Python's `v != v` and `v <= th` do on the values
+at hand, and `gt` "v exceeds th". If, wherever a non-NaN tested value meets the threshold of its position, `<=` answers
+and answers `not (v exceeds th)` (numbers; `ObsTime` against `ObsTime`; any class whose `__le__` is the negation of
+its `__gt__`), then the call raises nothing and the marker is 1 exactly when SOME tested value that is not NaN
+exceeds its threshold. A value is skipped only if `isnan` says so: a tested `ObsTime` counts. -/
+theorem marker_and_typed (isnan : α → Bool) (le? : α → α → Except String Bool) (gt : α → α → Bool) (fmax : α)
+    (ths : List α) (vals : List (Option α)) (h : vals.length ≤ ths.length) (hty : Typed isnan le? gt ths 0 vals) :
+    ∃ b, markerG isnan le? fmax true ths vals = .ok b ∧
+      (b = true ↔ ∃ (i : Nat) (v th : α), vals[i]? = some (some v) ∧ isnan v = false ∧ ths[i]? = some th ∧ gt v th = true) := by
+  obtain ⟨r, hr, hiff⟩ := foldCmpG_and isnan le? gt fmax ths vals 0 true (by omega) hty
+  refine ⟨!r, by simp [markerG, hr], ?_⟩
+  simp only [Nat.zero_add, true_and] at hiff
+  constructor
+  · intro hb
+    have hrf : ¬ r = true := by intro hh; rw [hh] at hb; cases hb
+    apply Classical.byContradiction
+    intro hne
+    apply hrf
+    rw [hiff]
+    intro i w hw v th hv hn hth
+    subst hv
+    cases hg : gt v th with
+    | false => rfl
+    | true => exact absurd ⟨i, v, th, hw, hn, hth, hg⟩ hne
+  · rintro ⟨i, v, th, hw, hn, hth, hg⟩
+    cases hrr : r with
+    | false => rfl
+    | true =>
+      have := (hiff.mp hrr) i (some v) hw v th rfl hn hth
+      rw [hg] at this; cases this
+
+/-- T9 (OR mode, any kind of value): the marker is 1 exactly when EVERY tested value that is not NaN exceeds its
+threshold. -/
+theorem marker_or_typed (isnan : α → Bool) (le? : α → α → Except String Bool) (gt : α → α → Bool) (fmax : α)
+    (ths : List α) (vals : List (Option α)) (h : vals.length ≤ ths.length) (hty : Typed isnan le? gt ths 0 vals) :
+    ∃ b, markerG isnan le? fmax false ths vals = .ok b ∧
+      (b = true ↔ ∀ (i : Nat) (v th : α), vals[i]? = some (some v) → isnan v = false → ths[i]? = some th → gt v th = true) := by
+  obtain ⟨r, hr, hiff⟩ := foldCmpG_or isnan le? gt fmax ths vals 0 false (by omega) hty
+  refine ⟨!r, by simp [markerG, hr], ?_⟩
+  simp only [Nat.zero_add, true_and] at hiff
+  constructor
+  · intro hb i v th hw hn hth
+    have hrf : r = false := by cases r <;> simp_all
+    exact (hiff.mp hrf) i (some v) hw v th rfl hn hth
+  · intro hall
+    have hrf : r = false := hiff.mpr (fun i w hw v th hv hn hth => by subst hv; exact hall i v th hw hn hth)
+    simp [hrf]
+
+/-- T9 (whole track): with typed rows `segmentation()` raises nothing and yields one marker per observation, each
+the marker of its row. -/
+theorem markers_each_typed (isnan : α → Bool) (le? : α → α → Except String Bool) (gt : α → α → Bool) (fmax : α)
+    (andMode : Bool) (ths : List α) (rows : List (List (Option α)))
+    (h : ∀ r ∈ rows, r.length ≤ ths.length ∧ Typed isnan le? gt ths 0 r) :
+    ∃ bs, markersG isnan le? fmax andMode ths rows = .ok bs ∧
+      rows.map (markerG isnan le? fmax andMode ths) = bs.map Except.ok := by
+  induction rows with
+  | nil => exact ⟨[], rfl, rfl⟩
+  | cons r rs ih =>
+    obtain ⟨bs, hbs, hall⟩ := ih (fun x hx => h x (List.mem_cons_of_mem _ hx))
+    obtain ⟨hl, hty⟩ := h r List.mem_cons_self
+    have hb : ∃ b, markerG isnan le? fmax andMode ths r = .ok b := by
+      cases andMode with
+      | true => obtain ⟨b, hb, _⟩ := marker_and_typed isnan le? gt fmax ths r hl hty; exact ⟨b, hb⟩
+      | false => obtain ⟨b, hb, _⟩ := marker_or_typed isnan le? gt fmax ths r hl hty; exact ⟨b, hb⟩
+    obtain ⟨b, hb⟩ := hb
+    exact ⟨b :: bs, by simp [markersG, hb, hbs], by simp [hb, hall]⟩
+
+/-- T9 (the numeric model is a special case): when nothing but NaN is NaN and `<=` always answers — numbers —
+the operator-call loops are the loops `marker_and_ord` … `segmentation_track` are about. -/
+theorem segmentation_total [LE α] [DecidableLE α] [OfNat α 0] [OfNat α 1] (fmax : α) (andMode : Bool) (t : FTrack α)
+    (afs : Arg String) (out : String) (ths : Arg α) :
+    segTrackG (fun _ => false) (fun a b => .ok (decide (a ≤ b))) fmax andMode t afs out ths
+      = segTrack fmax andMode t afs out ths := by
+  unfold segTrackG segTrack
+  simp only [markersG_total]
+  split
+  · rfl
+  · split
+    · rfl
+    · cases (t.create out).rows afs.listify with
+      | none => rfl
+      | some rows =>
+        simp only
+        cases markers fmax andMode ths.listify rows <;> rfl
+
+/-- T9 (evaluation order, outside the domain): a value that cannot be compared with its threshold (a number against
+an `ObsTime`) raises only if Python gets to compare it. The first tested value that is not NaN is always compared:
+if `<=` raises there, the call raises. -/
+theorem marker_first_raises (isnan : α → Bool) (le? : α → α → Except String Bool) (fmax : α) (andMode : Bool)
+    (v th : α) (ths : List α) (vals : List (Option α)) (e : String) (hn : isnan v = false) (he : le? v th = .error e) :
+    markerG isnan le? fmax andMode (th :: ths) (some v :: vals) = .error e := by
+  cases andMode <;> simp [markerG, foldCmpG, hn, threshold, he]
+
+/-- T9 (evaluation order): once a tested value has decided the marker — it exceeds its threshold in AND mode, it
+does not in OR mode — the remaining values are not compared (`False and …`, `True or …`): no exception, whatever
+they are. Stated for the first tested value. -/
+theorem marker_decided_first (isnan : α → Bool) (le? : α → α → Except String Bool) (fmax : α) (andMode : Bool)
+    (v th : α) (ths : List α) (vals : List (Option α)) (hn : isnan v = false) (hle : le? v th = .ok (!andMode))
+    (hlen : vals.length ≤ ths.length) :
+    markerG isnan le? fmax andMode (th :: ths) (some v :: vals) = .ok andMode := by
+  have hd := foldCmpG_decided isnan le? fmax andMode (th :: ths) vals 1 (by simp; omega)
+  cases andMode <;> simp_all [markerG, foldCmpG, threshold]
+end typed
+
+/-! ### numbers and `ObsTime` objects -/
+open TV.ObsTime in
+/-- T10 (`isnan`): no value but the float NaN is "NaN" for `segmentation()`: `utils.isnan(v)` is `v != v`, which is
+False for every number and — `ObsTime.__ne__` being `not (time == self)` on the seven fields — for every `ObsTime`.
+So the timestamps of the built-in feature `timestamp` are never skipped. -/
+theorem val_never_nan (v : Val) : Val.isnan v = false := Val.isnan_false v
+
+/-- T10 (AND mode on numbers and timestamps): every tested value being of the kind of its threshold (number against
+number, `ObsTime` against `ObsTime`; the kinds may differ from one tested feature to the next), the call raises
+nothing and the marker is 1 exactly when some tested non-NaN value exceeds its threshold (`Val.gt`: `>` on numbers,
+`ObsTime.__gt__` on timestamps). -/
+theorem marker_and_val (ths : List Val) (vals : List (Option Val)) (h : vals.length ≤ ths.length)
+    (hk : ∀ (i : Nat) (v th : Val), vals[i]? = some (some v) → ths[i]? = some th → Val.sameKind v th = true) :
+    ∃ b, markerG Val.isnan Val.le? Val.fmax true ths vals = .ok b ∧
+      (b = true ↔ ∃ (i : Nat) (v th : Val), vals[i]? = some (some v) ∧ ths[i]? = some th ∧ Val.gt v th = true) := by
+  obtain ⟨b, hb, hiff⟩ := marker_and_typed Val.isnan Val.le? Val.gt Val.fmax ths vals h (Val.typed ths vals hk)
+  refine ⟨b, hb, hiff.trans ⟨?_, ?_⟩⟩
+  · rintro ⟨i, v, th, hv, _, hth, hg⟩; exact ⟨i, v, th, hv, hth, hg⟩
+  · rintro ⟨i, v, th, hv, hth, hg⟩; exact ⟨i, v, th, hv, Val.isnan_false v, hth, hg⟩
+
+/-- T10 (OR mode on numbers and timestamps): the marker is 1 exactly when every tested non-NaN value exceeds its
+threshold. -/
+theorem marker_or_val (ths : List Val) (vals : List (Option Val)) (h : vals.length ≤ ths.length)
+    (hk : ∀ (i : Nat) (v th : Val), vals[i]? = some (some v) → ths[i]? = some th → Val.sameKind v th = true) :
+    ∃ b, markerG Val.isnan Val.le? Val.fmax false ths vals = .ok b ∧
+      (b = true ↔ ∀ (i : Nat) (v th : Val), vals[i]? = some (some v) → ths[i]? = some th → Val.gt v th = true) := by
+  obtain ⟨b, hb, hiff⟩ := marker_or_typed Val.isnan Val.le? Val.gt Val.fmax ths vals h (Val.typed ths vals hk)
+  refine ⟨b, hb, hiff.trans ⟨?_, ?_⟩⟩
+  · intro hall i v th hv hth; exact hall i v th hv (Val.isnan_false v) hth
+  · intro hall i v th hv _ hth; exact hall i v th hv hth
+
+open TV.ObsTime in
+/-- T10 ("exceeds" between timestamps is "strictly later"): for well-formed dates (`WFs`: fields in their calendar
+ranges, year ≥ 1970) `ObsTime.__gt__` holds exactly when the instant, counted in milliseconds, is larger (C03). -/
+theorem val_gt_time (a b : Stamp) (ha : WFs a) (hb : WFs b) :
+    Val.gt (.time a) (.time b) = true ↔ toAbsMs b < toAbsMs a := by
+  show gtS a b = true ↔ _
+  rw [gtS_eq_ltS]
+  exact ltS_iff b a hb ha
+
+/-- T10 ("exceeds" between numbers) -/
+theorem val_gt_num (a b : Ext) : Val.gt (.num a) (.num b) = true ↔ b < a := by
+  simp [Val.gt]
+
+/-- T10 (outside the domain): a number against an `ObsTime` threshold, or the reverse, is an `AttributeError` of
+`ObsTime.__gt__` / `__lt__` (they read `time.year`) as soon as the pair is compared. -/
+theorem val_mixed_raises (v th : Val) (h : Val.sameKind v th = false) : Val.le? v th = .error "attr" :=
+  Val.le?_mixed v th h
+
+/-- T10 (`getObsAnalyticalFeature` on the built-in names): on a track given by its coordinates (`xyz`: columns named
+`x`, `y`, `z`), its timestamps and its feature table, the name `timestamp` reads the `ObsTime` objects themselves,
+`idx` the indices 0, 1, 2, …, `t` `toAbsTime()` of every timestamp — whatever the feature table holds. -/
+theorem builtin_features (absTime : TV.ObsTime.Stamp → Option Val) (xyz feats : List (String × Col Val))
+    (stamps : List TV.ObsTime.Stamp) (hx : ∀ p ∈ xyz, p.1 = "x" ∨ p.1 = "y" ∨ p.1 = "z") :
+    (FTrack.ofObs absTime xyz stamps feats).size = stamps.length ∧
+    (FTrack.ofObs absTime xyz stamps feats).get "timestamp" = some (stamps.map (fun s => some (Val.time s))) ∧
+    (FTrack.ofObs absTime xyz stamps feats).get "idx"
+      = some ((List.range stamps.length).map (fun (i : Nat) => some (Val.num (.fin (i : Rat))))) ∧
+    (FTrack.ofObs absTime xyz stamps feats).get "t" = some (stamps.map absTime) := by
+  have hk : ∀ k : String, k ≠ "x" → k ≠ "y" → k ≠ "z" → ∀ p ∈ xyz, p.1 ≠ k := by
+    intro k h1 h2 h3 p hp e
+    rcases hx p hp with h | h | h <;> rw [h] at e <;> simp_all
+  refine ⟨rfl, ?_, ?_, ?_⟩
+  · simp only [FTrack.get, FTrack.ofObs, builtinCols]
+    rw [lookup_append_skip _ _ _ (hk "timestamp" (by decide) (by decide) (by decide))]
+    rfl
+  · simp only [FTrack.get, FTrack.ofObs, builtinCols]
+    rw [lookup_append_skip _ _ _ (hk "idx" (by decide) (by decide) (by decide))]
+    rfl
+  · simp only [FTrack.get, FTrack.ofObs, builtinCols]
+    rw [lookup_append_skip _ _ _ (hk "t" (by decide) (by decide) (by decide))]
+    rfl
+
+section trackG
+variable {α : Type} [OfNat α 0] [OfNat α 1]
+
+/-- T11 (`segmentation()` as a whole, any kind of value): `segmentation_track` for the operator-call model. A call
+in the domain — output name not reserved, track not empty, tested features known, at least as many thresholds as
+tested features, and the rows read from the track typed against the thresholds (at `Val`: every tested feature holds
+values of the kind of its threshold, NaN apart — `Val.typed`) — succeeds; the output feature holds the markers of the
+rows (characterised by `marker_and_typed` / `marker_or_typed`); every other feature reads as before; names, their
+order and the size are unchanged. The tested features may be the built-in ones (`virt`: `x y z t idx timestamp`). -/
+theorem segmentation_track_typed (isnan : α → Bool) (le? : α → α → Except String Bool) (gt : α → α → Bool) (fmax : α)
+    (andMode : Bool) (t : FTrack α) (afs : Arg String) (out : String) (ths : Arg α)
+    (hres : reserved.contains out = false) (hsize : t.size ≠ 0) (hvirt : t.virt.lookup out = none)
+    (hknown : ∀ a ∈ afs.listify, ((t.create out).get a).isSome = true)
+    (hlen : afs.listify.length ≤ ths.listify.length)
+    (hty : ∀ rows, (t.create out).rows afs.listify = some rows → ∀ r ∈ rows, Typed isnan le? gt ths.listify 0 r) :
+    ∃ rows bs t', (t.create out).rows afs.listify = some rows ∧ rows.length = t.size ∧
+      markersG isnan le? fmax andMode ths.listify rows = .ok bs ∧
+      rows.map (markerG isnan le? fmax andMode ths.listify) = bs.map Except.ok ∧
+      segTrackG isnan le? fmax andMode t afs out ths = .ok t' ∧
+      t'.get out = some (bs.map markVal) ∧
+      (∀ name, name ≠ out → t'.get name = t.get name) ∧
+      t'.feats.map Prod.fst = (t.create out).feats.map Prod.fst ∧
+      t'.size = t.size ∧ t'.virt = t.virt := by
+  obtain ⟨cols, hcols⟩ := mapM_isSome _ _ hknown
+  have hrows : (t.create out).rows afs.listify = some
+      ((List.range (t.create out).size).map (fun i => cols.map (fun c => (c[i]?).getD none))) := by
+    simp [FTrack.rows, hcols]
+  obtain ⟨hrl, hrw⟩ := rows_length _ _ _ hrows
+  obtain ⟨bs, hbs, hall⟩ := markers_each_typed isnan le? gt fmax andMode ths.listify _
+    (fun r hr => ⟨by rw [hrw r hr]; exact hlen, hty _ hrows r hr⟩)
+  refine ⟨_, bs, (t.create out).setCol out (bs.map markVal), hrows, by rw [hrl, create_size], hbs, hall, ?_, ?_, ?_, ?_, ?_, ?_⟩
+  · simp only [segTrackG, hres, Bool.false_eq_true, if_false, hsize, hrows, hbs]
+    rfl
+  · exact setCol_get_eq _ _ _ (create_has t out) (by rw [create_virt]; exact hvirt)
+  · intro name hne
+    rw [setCol_get_ne _ _ _ _ hne, create_get_ne _ _ _ hne]
+  · rw [setCol_feats, names_setF]
+  · exact create_size t out
+  · exact create_virt t out
+
+/-- T11 (numbers and `ObsTime` objects): the same for the values a track actually hands over, the hypothesis being
+that in every row read from the track each non-NaN tested value is of the kind of the threshold of its position
+(e.g. `afs_input = ["speed", "timestamp"]`, `thresholds_max = [5.0, ObsTime(…)]`). -/
+theorem segmentation_track_val (andMode : Bool) (t : FTrack Val) (afs : Arg String) (out : String) (ths : Arg Val)
+    (hres : reserved.contains out = false) (hsize : t.size ≠ 0) (hvirt : t.virt.lookup out = none)
+    (hknown : ∀ a ∈ afs.listify, ((t.create out).get a).isSome = true)
+    (hlen : afs.listify.length ≤ ths.listify.length)
+    (hk : ∀ rows, (t.create out).rows afs.listify = some rows → ∀ r ∈ rows, ∀ (i : Nat) (v th : Val),
+      r[i]? = some (some v) → ths.listify[i]? = some th → Val.sameKind v th = true) :
+    ∃ rows bs t', (t.create out).rows afs.listify = some rows ∧ rows.length = t.size ∧
+      markersG Val.isnan Val.le? Val.fmax andMode ths.listify rows = .ok bs ∧
+      rows.map (markerG Val.isnan Val.le? Val.fmax andMode ths.listify) = bs.map Except.ok ∧
+      segTrackG Val.isnan Val.le? Val.fmax andMode t afs out ths = .ok t' ∧
+      t'.get out = some (bs.map markVal) ∧
+      (∀ name, name ≠ out → t'.get name = t.get name) ∧
+      t'.feats.map Prod.fst = (t.create out).feats.map Prod.fst ∧
+      t'.size = t.size ∧ t'.virt = t.virt :=
+  segmentation_track_typed Val.isnan Val.le? Val.gt Val.fmax andMode t afs out ths hres hsize hvirt hknown hlen
+    (fun rows hr r hmem => Val.typed _ _ (hk rows hr r hmem))
+
+/-- T11 (no memory, any kind of value): what an already existing output feature held before the call has no
+influence on the result, exceptions included. -/
+theorem segmentation_history_typed (isnan : α → Bool) (le? : α → α → Except String Bool) (fmax : α) (andMode : Bool)
+    (t : FTrack α) (afs : Arg String) (out : String) (ths : Arg α)
+    (c : Col α) (hhas : t.has out = true) (hout : out ∉ afs.listify) :
+    segTrackG isnan le? fmax andMode (t.setCol out c) afs out ths = segTrackG isnan le? fmax andMode t afs out ths := by
+  have h1 : (t.setCol out c).create out = t.setCol out c := create_of_has _ _ (by rw [setCol_has]; exact hhas)
+  have h2 : t.create out = t := create_of_has _ _ hhas
+  have hr : (t.setCol out c).rows afs.listify = t.rows afs.listify :=
+    rows_congr _ _ _ rfl (fun a ha => setCol_get_ne _ _ _ _ (fun e => hout (e ▸ ha)))
+  simp only [segTrackG, h1, h2, hr, setCol_setCol]
+  rfl
+end trackG
+
 /-! ## the hypotheses are satisfiable by non-trivial inputs (and the model computes what Python does) -/
 
 -- markers 0 1 0 1 on tags 10..13: pieces [10,11] [12,13] and the empty tail of `extract(4, 3)`
@@ -419,4 +678,44 @@ example : ((segTrack Ext.fmax true { size := 2, virt := [], feats := [("speed", 
 -- outside the domain: reserved output name, empty track
 example : (segTrack Ext.fmax true { size := 2, virt := [], feats := [("speed", [some (.fin 1), some (.fin 3)])] }
       (.one "speed") "x" (.one (.fin 2))).toOption.isNone = true := by decide +kernel
+
+-- timestamps: 2020-02-29 23:59:59.500, 2020-03-01 00:00:00.000 and .500; thresholds: a number for `speed`, an ObsTime for `timestamp`
+section
+open TV.ObsTime
+private def s1 : Stamp := ⟨⟨2020, 2, 29, 23, 59, 59⟩, 500⟩
+private def s2 : Stamp := ⟨⟨2020, 3, 1, 0, 0, 0⟩, 0⟩
+private def s3 : Stamp := ⟨⟨2020, 3, 1, 0, 0, 0⟩, 500⟩
+/-- (result, "") or (none, exception) -/
+private def res {γ : Type} : Except String γ → Option γ × String
+  | .ok b => (some b, "")
+  | .error e => (none, e)
+-- a single tested feature, the timestamp, against the instant of the second observation: equal does not exceed
+example : res (markersG Val.isnan Val.le? Val.fmax true [.time s2] [[some (.time s1)], [some (.time s2)], [some (.time s3)]])
+    = (some [false, false, true], "") := by decide +kernel
+-- mixed: speed > 5 or later than s2 (AND mode); speed > 5 and later than s2 (OR mode); a missing speed is skipped
+example : res (markersG Val.isnan Val.le? Val.fmax true [.num (.fin 5), .time s2]
+    [[some (.num (.fin 9)), some (.time s1)], [none, some (.time s2)], [some (.num (.fin 1)), some (.time s3)]])
+    = (some [true, false, true], "") := by decide +kernel
+example : res (markersG Val.isnan Val.le? Val.fmax false [.num (.fin 5), .time s2]
+    [[some (.num (.fin 9)), some (.time s1)], [none, some (.time s3)], [some (.num (.fin 9)), some (.time s3)]])
+    = (some [false, true, true], "") := by decide +kernel
+-- the hypothesis of `marker_and_val` on such a row, and well-formed dates for `val_gt_time`
+example : Val.sameKind (.num (.fin 9)) (.num (.fin 5)) = true ∧ Val.sameKind (.time s1) (.time s2) = true := by decide
+example : WFs s1 ∧ WFs s3 := by unfold WFs WF; decide
+example : Val.gt (.time s3) (.time s1) = true := by decide
+-- outside the domain: a number against an ObsTime threshold raises when it is compared (first position, or AND mode
+-- with nothing exceeding before it) and not when the marker is already decided
+example : res (markerG Val.isnan Val.le? Val.fmax true [.time s2] [some (.num (.fin 9))]) = (none, "attr") := by decide +kernel
+example : res (markerG Val.isnan Val.le? Val.fmax true [.num (.fin 5), .time s2] [some (.num (.fin 9)), some (.num (.fin 9))])
+    = (some true, "") := by decide +kernel
+example : res (markerG Val.isnan Val.le? Val.fmax true [.num (.fin 5), .time s2] [some (.num (.fin 1)), some (.num (.fin 9))])
+    = (none, "attr") := by decide +kernel
+-- the whole call on the built-in feature `timestamp` (a virtual column) mixed with a feature of the table
+example : ((segTrackG Val.isnan Val.le? Val.fmax true
+      { size := 3, virt := [("timestamp", [some (.time s1), some (.time s2), some (.time s3)])],
+        feats := [("speed", [some (.num (.fin 9)), none, some (.num (.fin 1))])] }
+      (.many ["speed", "timestamp"]) "cut" (.many [.num (.fin 5), .time s2])).toOption.map (·.feats))
+    = some [("speed", [some (.num (.fin 9)), none, some (.num (.fin 1))]), ("cut", [some 1, some 0, some 1])] := by
+  decide +kernel
+end
 end TV.C11
